@@ -92,7 +92,12 @@ Init == /\ l = 1 /\ sess = <<>> /\ cur = [id |-> "none", cmp |-> <<>>] /\ mode =
         /\ stats = [execs |-> 0, events |-> 0, unspec |-> 0, refused |-> 0, failed |-> 0, finished |-> 0, skipped |-> 0]
 
 DoOpen(ev) ==
-    /\ cur' = ev /\ sess' = MkSession(ev) /\ mode' = IF Has(ev, "cli") \/ Has(ev, "repl") THEN "run" ELSE "await"
+    \* the initial session is kept with the Open event (listings and views are defined from it; recomputing a spend's set-up for every
+    \* printed listing dominated the validation time)
+    /\ LET s0 == MkSession(ev)
+           lst == IF Has(ev, "repl") /\ "ctx" \in DOMAIN s0 THEN ExpectedListing(s0) ELSE <<>>
+       IN cur' = (ev @@ [s0 |-> s0, listing0 |-> lst]) /\ sess' = s0
+    /\ mode' = IF Has(ev, "cli") \/ Has(ev, "repl") THEN "run" ELSE "await"
     /\ stats' = Bump("execs") /\ UNCHANGED <<divs, cov>>
 
 \* Opened / Refused must agree with the admissibility rule of the domain (C01) and the size rule (C10)
@@ -163,7 +168,10 @@ Judge(ev, exp, opname, endsExecution) ==
                        \/ sess.ctx.sigver = "TAPROOT" \/ opname = "commit")
         THEN \* the commitment check is a gate: once it has failed every further step must fail too (mode "stuck"); after an ordinary
              \* failed operation the rest of the execution is outside the specification (DESIGN.md section 7: compared to the first failure)
-             /\ mode' = (IF opname = "commit" THEN "stuck" ELSE "skip") /\ cov' = cov \cup {<<opname, exp.vm.err>>} /\ stats' = Bump("failed")
+             \* a step that failed while decoding an operand (exception) has not touched the stacks: exec commands issued afterwards are still
+             \* judged, on the stacks only (mode "threw")
+             /\ mode' = (IF opname = "commit" THEN "stuck" ELSE IF exp.vm.err \in {"ANY", "UNKNOWN_ERROR"} /\ opname \notin {"run", "exec", "end"} THEN "threw" ELSE "skip")
+             /\ cov' = cov \cup {<<opname, exp.vm.err>>} /\ stats' = Bump("failed")
              /\ UNCHANGED <<divs, sess, cur>>
         ELSE /\ divs' = Append(divs, Div("step must fail", [op |-> opname, err |-> exp.vm.err, pre |-> Show(sess)], ev))
              /\ mode' = "skip" /\ UNCHANGED <<cov, sess, cur, stats>>
@@ -194,6 +202,39 @@ ExpDigestHex(s) ==
         d == IF g.op = OP_CHECKSIGADD THEN DigestOf(s.ctx, s.vm, Top(st, 3), Top(st, 1)) ELSE DigestOf(s.ctx, s.vm, Top(st, 2), Top(st, 1))
     IN BytesToHex(d[2])
 
+\* exec: judged against the state the specification has (modes run and threw); afterFail = the mode after a failing exec
+TextOK(ev, label) == ~Has(ev, "errtext") \/ ErrTextMatches(label, ev.errtext)
+DoExec(ev, afterFail) ==
+    LET a == AssembleExec(ev.toks)
+        fields == IF mode = "threw" THEN {"stack", "alt", "cond"} ELSE SetOf(cur.cmp)
+    IN IF ~a[1] THEN (IF ~ev.ok /\ (Mismatch(sess, ev) \cap fields) = {} THEN /\ cov' = cov \cup {<<"exec", "invalid-token">>} /\ UNCHANGED <<divs, sess, cur, mode, stats>>
+                      ELSE /\ divs' = Append(divs, Div("exec accepted an invalid token", <<>>, ev)) /\ mode' = "skip"
+                           /\ UNCHANGED <<cov, sess, cur, stats>>)
+       ELSE LET exp == Exec(sess, a[2])
+                \* an operation that throws (number too long / not minimal) has not touched the stacks: what the user sees after the failed
+                \* exec is the effect of the operations before it (an operation that fails with a script error may leave its own partial effect)
+                pre == ExecPrefix(sess, a[2])
+                threw == exp.vm.err \in {"ANY", "UNKNOWN_ERROR"}      \* the labels of the failures raised while operands are decoded
+                bad == (IF threw THEN Mismatch(pre, ev) \cap {"stack", "alt", "cond"} ELSE {}) \cup (IF TextOK(ev, exp.vm.err) THEN {} ELSE {"error text"})
+                labelOK == exp.vm.err = "ANY" \/ exp.vm.err = ev.err
+            IN IF exp.vm.status = "failed" /\ ~ev.ok /\ labelOK /\ bad = {}
+               THEN \* going on after a failed exec is only possible when its state is known: the failing operation threw, so the state is the prefix's
+                    /\ mode' = (IF threw THEN afterFail ELSE "skip") /\ sess' = (IF threw /\ afterFail = "threw" THEN pre ELSE sess)
+                    /\ cov' = cov \cup {<<"exec", exp.vm.err>>} \cup (IF threw THEN {<<"exec", "threw: prefix kept">>} ELSE {}) /\ stats' = Bump("failed")
+                    /\ UNCHANGED <<divs, cur>>
+               ELSE IF exp.vm.status = "failed" /\ ~ev.ok /\ labelOK
+               THEN /\ divs' = Append(divs, Div("after a failed exec: the operations before the failing one stay applied and the reported error is that operation's",
+                                                 [op |-> "exec", fields |-> bad, err |-> exp.vm.err, exp |-> Show(pre)], ev))
+                    /\ mode' = "skip" /\ UNCHANGED <<cov, sess, cur, stats>>
+               ELSE IF mode = "threw" THEN
+                    \* after a step that threw only the stacks are known: compare those
+                    (IF exp.vm.status \notin {"failed", "unspec"} /\ ev.ok /\ (Mismatch(exp, ev) \cap fields) = {}
+                     THEN /\ sess' = exp /\ cov' = cov \cup {<<"exec", "ok after a step that threw">>} /\ UNCHANGED <<divs, cur, mode, stats>>
+                     ELSE IF exp.vm.status = "unspec" THEN /\ mode' = "skip" /\ UNCHANGED <<divs, cov, sess, cur, stats>>
+                     ELSE /\ divs' = Append(divs, Div("exec after a step that threw", [op |-> "exec", fields |-> IF ev.ok THEN Mismatch(exp, ev) \cap fields ELSE {"ok"}, exp |-> Show(exp)], ev))
+                          /\ mode' = "skip" /\ UNCHANGED <<cov, sess, cur, stats>>)
+               ELSE Judge(ev, exp, "exec", FALSE)
+
 DoRun(ev) ==
     IF ev.e = "Step" /\ DigestMismatch(ev) THEN
         /\ divs' = Append(divs, Div("signature digest", [op |-> NextOpName(sess), digest |-> ExpDigestHex(sess), pre |-> Show(sess)], ev))
@@ -210,8 +251,8 @@ DoRun(ev) ==
               /\ mode' = "skip" /\ UNCHANGED <<cov, sess, cur, stats>>)
     ELSE IF ev.e = "Listing" THEN
         \* the REPL's `print`: the pre-rendered listing and the position marker (C12)
-        LET s0 == MkSession(cur)
-            expLines == ExpectedListing(s0)
+        LET s0 == cur.s0
+            expLines == cur.listing0
             obsLines == [i \in 1..Len(ev.lines) |-> ev.lines[i]]
             expMarker == IF sess.seq < Len(expLines) /\ ~sess.done THEN sess.seq ELSE -1
             \* what the next step executes must be what the marked line says
@@ -227,14 +268,14 @@ DoRun(ev) ==
                 /\ mode' = "skip" /\ UNCHANGED <<cov, sess, cur, stats>>
     ELSE IF ev.e = "View" THEN
         \* the two-column view the REPL prints after a command: remaining operations | stack, each entry cut to its column
-        LET s0 == MkSession(cur)
+        LET s0 == cur.s0
             left == ViewLeft(sess)
             right == ViewRight(sess)
             expL == [i \in 1..Len(left) |-> Cut(left[i], ev.lcap)]
             expR == [i \in 1..Len(right) |-> Cut(right[i], ev.rcap)]
             obsL == [i \in 1..Len(ev.left) |-> ev.left[i]]
             obsR == [i \in 1..Len(ev.right) |-> ev.right[i]]
-            listing == ExpectedListing(s0)
+            listing == cur.listing0
             \* the line of what the next step executes, numbered by its position in the listing (section headers are shown without number)
             IsHeader(x) == x \in {"<<< scriptPubKey >>>", "<<< P2SH script >>>"}
             expCur == IF ev.hascur THEN (IF sess.seq < Len(listing) THEN (IF IsHeader(listing[sess.seq + 1]) THEN <<-2, listing[sess.seq + 1]>> ELSE <<sess.seq, listing[sess.seq + 1]>>)
@@ -267,24 +308,7 @@ DoRun(ev) ==
                      /\ stats' = Bump(IF expOut.code = 0 THEN "finished" ELSE "failed") /\ UNCHANGED <<divs, sess, cur>>
                 ELSE /\ divs' = Append(divs, Div("non-interactive run", [op |-> "cli", exp |-> expOut, err |-> IF refused THEN "refused" ELSE exp.vm.err, refused |-> refused], ev))
                      /\ mode' = "skip" /\ UNCHANGED <<cov, sess, cur, stats>>
-    ELSE IF ev.e = "Exec" THEN
-        LET a == AssembleExec(ev.toks)
-        IN IF ~a[1] THEN (IF ~ev.ok /\ Mismatch(sess, ev) = {} THEN /\ cov' = cov \cup {<<"exec", "invalid-token">>} /\ UNCHANGED <<divs, sess, cur, mode, stats>>
-                          ELSE /\ divs' = Append(divs, Div("exec accepted an invalid token", <<>>, ev)) /\ mode' = "skip"
-                               /\ UNCHANGED <<cov, sess, cur, stats>>)
-           ELSE LET exp == Exec(sess, a[2])
-                    \* an operation that throws (number too long / not minimal) has not touched the stacks: what the user sees after the failed
-                    \* exec is the effect of the operations before it (an operation that fails with a script error may leave its own partial effect)
-                    pre == ExecPrefix(sess, a[2])
-                    threw == exp.vm.err \in {"ANY", "UNKNOWN_ERROR"}      \* the labels of the failures raised while operands are decoded
-                    bad == IF threw THEN Mismatch(pre, ev) \cap {"stack", "alt", "cond"} ELSE {}
-                IN IF exp.vm.status = "failed" /\ ~ev.ok /\ (exp.vm.err = "ANY" \/ exp.vm.err = ev.err) /\ bad = {}
-                   THEN /\ mode' = "skip" /\ cov' = cov \cup {<<"exec", exp.vm.err>>} \cup (IF threw THEN {<<"exec", "threw: prefix kept">>} ELSE {}) /\ stats' = Bump("failed")
-                        /\ UNCHANGED <<divs, sess, cur>>
-                   ELSE IF exp.vm.status = "failed" /\ ~ev.ok /\ (exp.vm.err = "ANY" \/ exp.vm.err = ev.err)
-                   THEN /\ divs' = Append(divs, Div("state after a failed exec: the operations before the one that threw must stay applied", [op |-> "exec", fields |-> bad, exp |-> Show(pre)], ev))
-                        /\ mode' = "skip" /\ UNCHANGED <<cov, sess, cur, stats>>
-                   ELSE Judge(ev, exp, "exec", FALSE)
+    ELSE IF ev.e = "Exec" THEN DoExec(ev, "skip")
     ELSE IF ev.e = "Rewind" THEN
         IF ev.ok THEN
             (IF ~CanRewind(sess) THEN /\ divs' = Append(divs, Div("rewind accepted with no history", Show(sess), ev))
@@ -316,6 +340,8 @@ Next ==
                        /\ mode' = "skip" /\ UNCHANGED <<cov, sess, cur, stats>>
                   ELSE /\ mode' = "skip" /\ stats' = Bump("failed") /\ UNCHANGED <<divs, cov, sess, cur>>)
              ELSE UNCHANGED <<divs, cov, sess, cur, mode, stats>>)
+       ELSE IF mode = "threw" THEN
+            (IF ev.e = "Exec" THEN DoExec(ev, "threw") ELSE /\ mode' = "skip" /\ stats' = Bump("skipped") /\ UNCHANGED <<divs, cov, sess, cur>>)
        ELSE IF mode = "stuck" THEN
             (IF ev.e \in {"Step", "Run"} /\ Has(ev, "ok") THEN
                  (IF ~ev.ok THEN /\ cov' = cov \cup {<<"commit", "stays failed">>} /\ UNCHANGED <<divs, sess, cur, mode, stats>>
@@ -331,7 +357,7 @@ Result == [divs |-> divs, cov |-> cov, stats |-> stats, lines |-> Len(Tr)]
 Finished == l = Len(Tr) + 1
 WriteResult == Finished => ndJsonSerialize(OutFile, <<Result>>)
 \* the spec's own invariants, evaluated at every state of every implementation trace
-TypeOK == /\ mode \in {"idle", "await", "run", "skip", "vonly", "stuck"}
+TypeOK == /\ mode \in {"idle", "await", "run", "skip", "vonly", "stuck", "threw"}
           /\ ((mode = "run" /\ "vm" \in DOMAIN sess) => /\ sess.vm.status \in {"running", "ok"}
                               /\ Len(sess.vm.stack) + Len(sess.vm.alt) <= RealLimits.stack
                               /\ sess.vm.pc <= Len(sess.ctx.script)
